@@ -25,6 +25,10 @@ RecOK(r) == IF r.k = "crash" THEN FALSE
                                [] r.mode = "gr2sortedweightgr" -> SortedDataView(G, r.adj)
                                [] r.mode = "gr2randomweightgr" -> RandomWeightOK(G, r.adj, r.lo, r.hi)
                                [] r.mode = "gr2biggr" -> SameOK(G, r.adj)
+                               [] r.mode = "gr2mtx" -> ListOK(G, 1, r.list) /\ r.n = NN /\ r.m = MM
+                               [] r.mode = "mtx2gr" -> SameOK(G, r.adj)
+                               [] r.mode = "gr2lowdegreegr" -> LowDegreeOK(G, r.adj, r.maxdeg)
+                               [] r.mode = "gr2sorteddegreegr" -> SortedDegreeOK(G, r.adj, r.perm)
                                [] OTHER -> FALSE
                    [] OTHER -> FALSE
 Init == l = 1 /\ G = <<>> /\ NN = 0 /\ MM = 0
